@@ -22,7 +22,7 @@ CONSTANTS
   Dev <- MCCurDevs
 VIEW View
 INVARIANTS TypeOK SchemaOK LayoutOK GenerateTotal
-PROPERTIES MethodsKeptND FilesParseND IdealRecorded Deterministic
+PROPERTIES MethodsKeptND FilesParseND Deterministic
 ACTION_CONSTRAINT EmitEdge
 CONSTRAINT EmitInit
 CHECK_DEADLOCK FALSE
